@@ -25,6 +25,8 @@ RULE = (
 ASSUMPTIONS = [
     "equality of two independent continuous draws of >= 8 elements has negligible probability (2^-53 per element)",
     "the process-pool clause is sampled on a handful of fixed cases (pool start-up dominates the cost)",
+    "array-valued distribution parameters are constant arrays (so the support predicate stays valid) and never empty: a zero-length "
+    "array parameter makes _wrap_func index element 0 of it (IndexError) - degenerate input, not explored",
 ]
 TECHNIQUE = "metamorphic re-execution across generators/schedulers; invariants of sampling without replacement"
 
@@ -53,6 +55,13 @@ def make_rng(api, seed):
     return da.random.RandomState(seed) if seed is not None else da.random.RandomState()
 
 
+def array_key(c):
+    """Name of the parameter that receives the array (None: all parameters scalar)."""
+    if not c.get("array_param"):
+        return None
+    return c.get("array_key") or sorted(DISTS[c["dist"]][2])[0]
+
+
 def draw_call(rng, api, c):
     """Issue one distribution call described by c on rng."""
     import dask.array as da
@@ -60,9 +69,9 @@ def draw_call(rng, api, c):
     gname, rname, params, _ = DISTS[c["dist"]]
     params = dict(params)
     if c.get("array_param"):  # an array-valued (broadcast) parameter, NumPy or dask
-        # (Generator.integers(high=<ndarray>) crashes: the array travels through _wrap_func's **kwargs branch, which emits a
-        # legacy tuple task; a crash unrelated to reproducibility, reported separately -> the array goes to `low`)
-        key = sorted(params)[0] if c["dist"] != "integers" else "low"
+        # which parameter: the first one by default; "array_key" picks another (e.g. `high` of integers, the only
+        # array-capable parameter that Generator routes through _wrap_func's **kwargs branch -> finding integers-high-array)
+        key = array_key(c)
         shape = tuple(c["size"][-1:]) if c["array_param"] == "last" else tuple(c["size"])
         arr = np.full(shape, params[key])  # constant, so the support predicate stays valid
         params[key] = da.from_array(arr, chunks=1) if c.get("array_param_dask") else arr
@@ -74,7 +83,8 @@ def seeded_check(spec):
     import dask
 
     api, seed = spec["api"], spec["seed"]
-    sig = dict(op="seeded", api=api, sched=spec["sched"], zero_chunk=any(A.has_zero_chunk(c["chunks"]) for c in spec["calls"]))
+    sig = dict(op="seeded", api=api, sched=spec["sched"], zero_chunk=any(A.has_zero_chunk(c["chunks"]) for c in spec["calls"]),
+               integers_high_array=any(c["dist"] == "integers" and array_key(c) == "high" for c in spec["calls"]))
     with impl("random", **sig):
         r1, r2 = make_rng(api, seed), make_rng(api, seed)
         a1 = [draw_call(r1, api, c) for c in spec["calls"]]
@@ -104,6 +114,7 @@ def seeded_classes(spec):
         yield "dist-" + c["dist"]
         if c.get("array_param"):
             yield "array-param"
+            yield "array-param-" + c["dist"] + "-" + array_key(c)
     if spec.get("together"):
         yield "computed-together"
 
@@ -127,11 +138,13 @@ def procs_enum(tier):
 def call_spec(draw):
     shape = [draw(st.integers(0, 5)) for _ in range(draw(st.integers(1, 3)))]
     c = {"dist": draw(st.sampled_from(sorted(DISTS))), "size": shape, "chunks": draw(A.chunks_for_shape(shape, allow_zero=draw(st.integers(0, 9)) == 0))}
-    # (an EMPTY array-valued parameter makes _wrap_func index element 0 of it -> IndexError; degenerate input, reported
-    # separately, not generated)
+    # (an EMPTY array-valued parameter makes _wrap_func index element 0 of it -> IndexError; degenerate input, not
+    # explored - see ASSUMPTIONS)
     if DISTS[c["dist"]][2] and 0 not in shape and draw(st.integers(0, 3)) == 0:
         c["array_param"] = draw(st.sampled_from(["full", "last"]))
         c["array_param_dask"] = draw(st.booleans())
+        if draw(st.booleans()):
+            c["array_key"] = draw(st.sampled_from(sorted(DISTS[c["dist"]][2])))
     return c
 
 
@@ -193,10 +206,10 @@ def choice_check(spec):
     if spec.get("p"):
         w = np.asarray(spec["p"], dtype="f8")
         p = w / w.sum()
-    size = spec["size"]
+    size = spec["size"]  # list (n-d size), or None (one scalar draw)
     sz = tuple(size) if isinstance(size, list) else size
     chunks = tuple(tuple(c) for c in spec["chunks"])
-    sig = dict(op="choice", api=api, replace=spec["replace"], ndim_size=len(chunks), multi_chunk=A.nblocks(spec["chunks"]) > 1, chunked_axis0=len(chunks[0]) > 1 if chunks else False, with_p=p is not None)
+    sig = dict(op="choice", api=api, replace=spec["replace"], ndim_size=len(chunks), multi_chunk=A.nblocks(spec["chunks"]) > 1, chunked_axis0=len(chunks[0]) > 1 if chunks else False, with_p=p is not None, size_none=size is None)
     with impl("choice", **sig):
         rng = make_rng(api, spec["seed"])
         kw = dict(size=sz, replace=spec["replace"], p=p if not spec.get("p_dask") or p is None else da.from_array(p, chunks=1), chunks=chunks)
@@ -210,7 +223,7 @@ def choice_check(spec):
             return
         v = r.compute(scheduler="sync")
         v2 = make_rng(api, spec["seed"]).choice(a, **kw).compute(scheduler=spec["sched"])
-    want_shape = sz if isinstance(sz, tuple) else (sz,)
+    want_shape = sz if isinstance(sz, tuple) else ()
     ensure(np.shape(v) == want_shape, f"choice shape {np.shape(v)} != size {want_shape}", "shape-mismatch", **sig)
     ensure(np.array_equal(v, v2), f"choice with the same seed gave {v!r} then {v2!r}", "seeded-values-differ", **sig)
     ensure(bool(np.isin(v, population).all()), f"choice returned {v!r}: not all members of the population {population.tolist()}", "not-in-population", **sig)
@@ -223,20 +236,20 @@ def choice_check(spec):
 
 
 def choice_nontrivial(spec):
-    return A.nblocks(spec["chunks"]) > 1 or (not spec["replace"] and int(np.prod(spec["size"])) > 1)
+    return A.nblocks(spec["chunks"]) > 1 or (not spec["replace"] and int(np.prod(spec["size"] or [])) > 1)
 
 
 def choice_classes(spec):
     yield "api-" + spec["api"]
     yield "replace-" + str(spec["replace"])
     yield "pop-" + ("int" if isinstance(spec["pop"], int) else "dask" if spec["pop"].get("dask") else "numpy")
-    yield f"size-{len(spec['chunks'])}d"
+    yield f"size-{len(spec['chunks'])}d" if spec["size"] is not None else "size-None"
     if spec.get("p"):
         yield "p"
     if A.nblocks(spec["chunks"]) > 1:
         yield "multi-chunk"
     n = spec["pop"] if isinstance(spec["pop"], int) else len(spec["pop"]["values"])
-    if not spec["replace"] and int(np.prod(spec["size"])) == n:
+    if not spec["replace"] and spec["size"] is not None and int(np.prod(spec["size"])) == n:
         yield "full-population"
 
 
@@ -262,11 +275,13 @@ def choice_random(draw):
         rows = draw(st.integers(1, max(1, min(3, limit))))
         cols = draw(st.integers(1, max(1, limit // rows)))
         size = [rows, cols]
+    elif draw(st.integers(0, 7)) == 0:  # size=None: one scalar draw (0-d result)
+        size = None
     else:
         size = [draw(st.integers(0 if replace else min(1, limit), limit))]
     spec["size"] = size
-    # replace=False: dask only accepts a single chunk along axis 0 (checked: anything else must be refused, not wrong)
-    spec["chunks"] = draw(A.chunks_for_shape(size)) if replace or draw(st.integers(0, 1)) else [[s] for s in size]
+    # replace=False: dask only accepts single-chunk outputs (checked: anything else must be refused, not wrong)
+    spec["chunks"] = [] if size is None else draw(A.chunks_for_shape(size)) if replace or draw(st.integers(0, 1)) else [[s] for s in size]
     if spec["api"] == "generator" and draw(st.booleans()):
         spec["shuffle"] = draw(st.booleans())
     return spec
